@@ -45,7 +45,10 @@ pub enum Class {
     /// Orchard / Ironwood proof, spend-auth signatures, binding signature
     OrchAuth,
     CoinValue(usize),
-    CoinScript(usize),
+    /// scriptPubKey of the coin spent by input j
+    CoinScriptPubKey(usize),
+    /// scriptCode supplied when signing input j
+    CoinScriptCode(usize),
 }
 
 #[derive(Clone, Copy, Debug, PartialEq, Eq, Hash, PartialOrd, Ord)]
@@ -65,12 +68,12 @@ pub fn must_change(ver: Ver, c: Class, d: Dg, vin: usize, vout: usize) -> bool {
         Dg::Txid => {
             if !v5 {
                 // SHA-256d of the whole encoding: everything that is encoded
-                return !matches!(c, Branch | CoinValue(_) | CoinScript(_));
+                return !matches!(c, Branch | CoinValue(_) | CoinScriptPubKey(_) | CoinScriptCode(_));
             }
             match c {
                 Header | Branch | Prevout(_) | Sequence(_) | Output(_) | SapSpendEffect | SapOutEffect | SapVb | OrchEffect => true,
                 SapAnchor | OrchAnchor => !v6,
-                ScriptSig(_) | SapSpendProof | SapSpendSig | SapOutProof | SapBsig | OrchAuth | CoinValue(_) | CoinScript(_) => false,
+                ScriptSig(_) | SapSpendProof | SapSpendSig | SapOutProof | SapBsig | OrchAuth | CoinValue(_) | CoinScriptPubKey(_) | CoinScriptCode(_) => false,
             }
         }
         Dg::Auth => match c {
@@ -113,14 +116,20 @@ pub fn must_change(ver: Ver, c: Class, d: Dg, vin: usize, vout: usize) -> bool {
                         _ => true,
                     }
                 }
-                CoinValue(j) | CoinScript(j) => {
+                CoinValue(j) => {
                     if v5 {
-                        // S.2b/S.2c all coins unless ANYONECANPAY; S.2g the signed input's coin
+                        // S.2b all amounts unless ANYONECANPAY; S.2g.ii the signed input's
                         vin > 0 && (!acp || own(j))
                     } else {
-                        own(j)
+                        own(j) // ZIP 143/243 field 13c
                     }
                 }
+                // ZIP 244 S.2c all scriptPubKeys unless ANYONECANPAY, S.2g.iii the signed input's;
+                // ZIP 143/243 never hash the scriptPubKey
+                CoinScriptPubKey(j) => v5 && vin > 0 && (!acp || own(j)),
+                // ZIP 143/243 field 13b: the scriptCode of the input being signed; ZIP 244 never
+                // hashes the scriptCode
+                CoinScriptCode(j) => !v5 && own(j),
             }
         }
     }
@@ -131,8 +140,31 @@ pub struct Digests {
     pub map: BTreeMap<Dg, [u8; 32]>,
 }
 
-fn coins_for(n: usize) -> Vec<Coin> {
-    (0..n).map(|j| Coin { value: 10_000 + j as i64, script: fill("coin-script", j, 25) }).collect()
+/// The spent-coin alphabet: a P2PKH coin (scriptCode == scriptPubKey) and a P2SH coin
+/// (scriptPubKey = OP_HASH160 <20> OP_EQUAL, scriptCode = a 1-of-2 multisig redeem script).
+/// `variant` 0: even inputs spend P2SH coins, odd inputs P2PKH; `variant` 1: the reverse.
+fn coins_for(n: usize, variant: usize) -> Vec<Coin> {
+    (0..n)
+        .map(|j| {
+            let h = fill("coin-hash160", j, 20);
+            if (j + variant) % 2 == 0 {
+                let mut spk = vec![0xa9, 0x14];
+                spk.extend(&h);
+                spk.push(0x87);
+                let mut code = vec![0x51, 0x21];
+                code.extend(fill("coin-pk-a", j, 33));
+                code.push(0x21);
+                code.extend(fill("coin-pk-b", j, 33));
+                code.extend([0x52, 0xae]);
+                Coin { value: 10_000 + j as i64, script: spk, code }
+            } else {
+                let mut spk = vec![0x76, 0xa9, 0x14];
+                spk.extend(&h);
+                spk.extend([0x88, 0xac]);
+                Coin { value: 10_000 + j as i64, script: spk.clone(), code: spk }
+            }
+        })
+        .collect()
 }
 
 /// All digests of the real code for one transaction, plus the first disagreement with the
@@ -340,27 +372,33 @@ fn mutations(spec: &TxSpec, coins: &[Coin]) -> Vec<Mutation> {
         add(format!("CoinValue({j})+1"), Class::CoinValue(j), enc.clone(), spec.branch, c);
         let mut c = coins.to_vec();
         c[j].script[0] ^= 1;
-        add(format!("CoinScript({j})flip0"), Class::CoinScript(j), enc.clone(), spec.branch, c);
+        add(format!("CoinScriptPubKey({j})flip0"), Class::CoinScriptPubKey(j), enc.clone(), spec.branch, c);
         let mut c = coins.to_vec();
         c[j].script.push(0x51);
-        add(format!("CoinScript({j})+len"), Class::CoinScript(j), enc.clone(), spec.branch, c);
+        add(format!("CoinScriptPubKey({j})+len"), Class::CoinScriptPubKey(j), enc.clone(), spec.branch, c);
+        let mut c = coins.to_vec();
+        c[j].code[0] ^= 1;
+        add(format!("CoinScriptCode({j})flip0"), Class::CoinScriptCode(j), enc.clone(), spec.branch, c);
+        let mut c = coins.to_vec();
+        c[j].code.push(0x51);
+        add(format!("CoinScriptCode({j})+len"), Class::CoinScriptCode(j), enc.clone(), spec.branch, c);
     }
     out
 }
 
 fn coins_json(c: &[Coin]) -> Value {
-    json!(c.iter().map(|c| json!([c.value, hex::encode(&c.script)])).collect::<Vec<_>>())
+    json!(c.iter().map(|c| json!([c.value, hex::encode(&c.script), hex::encode(&c.code)])).collect::<Vec<_>>())
 }
 
 fn coins_from(v: &Value) -> Vec<Coin> {
-    v.as_array().map(|a| a.iter().map(|c| Coin { value: c[0].as_i64().unwrap_or(0), script: hex::decode(c[1].as_str().unwrap_or("")).unwrap_or_default() }).collect()).unwrap_or_default()
+    v.as_array().map(|a| a.iter().map(|c| Coin { value: c[0].as_i64().unwrap_or(0), script: hex::decode(c[1].as_str().unwrap_or("")).unwrap_or_default(), code: hex::decode(c[2].as_str().unwrap_or("")).unwrap_or_default() }).collect()).unwrap_or_default()
 }
 
 fn class_from(s: &str) -> Option<Class> {
     use Class::*;
     let mut all = vec![Header, Branch, SapSpendEffect, SapAnchor, SapSpendProof, SapSpendSig, SapOutEffect, SapOutProof, SapVb, SapBsig, OrchEffect, OrchAnchor, OrchAuth];
     for i in 0..8 {
-        all.extend([Prevout(i), Sequence(i), ScriptSig(i), Output(i), CoinValue(i), CoinScript(i)]);
+        all.extend([Prevout(i), Sequence(i), ScriptSig(i), Output(i), CoinValue(i), CoinScriptPubKey(i), CoinScriptCode(i)]);
     }
     all.into_iter().find(|c| format!("{c:?}") == s)
 }
@@ -386,10 +424,10 @@ fn check_vector(kind: &str, i: usize) -> Result<String, String> {
                 (v.tx, v.script_code.0 .0, v.transparent_input, v.hash_type, v.amount, u32::from(v.consensus_branch_id), v.sighash)
             };
             let spec = ref_parse(&tx, branch).map_err(|e| format!("HARNESS: {e}"))?.spec;
-            let mut coins: Vec<Coin> = (0..spec.vin.len()).map(|_| Coin { value: 0, script: vec![] }).collect();
+            let mut coins: Vec<Coin> = (0..spec.vin.len()).map(|_| Coin { value: 0, script: vec![], code: vec![] }).collect();
             let sg = match input {
                 Some(n) => {
-                    coins[n as usize] = Coin { value: amount, script: script_code };
+                    coins[n as usize] = Coin { value: amount, script: script_code.clone(), code: script_code };
                     Signing::Transparent { index: n as usize, hash_type: hash_type as u8 }
                 }
                 None => Signing::Shielded,
@@ -414,7 +452,7 @@ fn check_vector(kind: &str, i: usize) -> Result<String, String> {
         "zip244" => {
             let v = data::zip_0244::make_test_vectors().into_iter().nth(i).ok_or("no such vector")?;
             let spec = ref_parse(&v.tx, 0xc2d6_d0b4).map_err(|e| format!("HARNESS: {e}"))?.spec;
-            let coins: Vec<Coin> = v.amounts.iter().zip(&v.script_pubkeys).map(|(a, s)| Coin { value: *a, script: s.clone() }).collect();
+            let coins: Vec<Coin> = v.amounts.iter().zip(&v.script_pubkeys).map(|(a, s)| Coin { value: *a, script: s.clone(), code: s.clone() }).collect();
             if reference::txid(&spec) != v.txid {
                 return Err(format!("REFERENCE: zip244[{i}] txid"));
             }
@@ -478,7 +516,8 @@ pub fn run(args: &Args) -> i32 {
          signature hash, every transparent input x the 6 valid hash types, against the reference implementation); then every single-field mutation \
          (each scalar header field, the branch id, per input prevout hash/index/scriptSig/sequence, per output value/script, every Sapling spend and \
          output field incl. enc_ciphertext at offsets {0,51,52,563,564,579}, every Orchard/Ironwood action field, flags, value balances, anchors, \
-         proofs, signatures, and the value/script of every spent coin), oracle 1 again on the mutant and the commitment matrix on every digest. A \
+         proofs, signatures, and the value, the scriptPubKey and (separately) the scriptCode of every spent coin; coins are P2SH-shaped (scriptCode != \
+         scriptPubKey) and P2PKH-shaped (equal), in both assignments to the inputs), oracle 1 again on the mutant and the commitment matrix on every digest. A \
          case is distinct by (transaction, field position, variant); non-trivial because the mutant differs from the base in exactly one field",
     );
     run.assume("the reference implementation is trusted after reproducing every published ZIP 143 / 243 / 244 vector (checked at the start of each run)");
@@ -572,11 +611,18 @@ pub fn run(args: &Args) -> i32 {
     let skipped = std::sync::atomic::AtomicUsize::new(0);
     let max_fields = std::sync::atomic::AtomicUsize::new(0);
 
-    eq_only.par_iter().for_each(|(ver, branch, sh)| {
+    // every base is explored under both assignments of the spent-coin alphabet (P2SH / P2PKH)
+    let with_coins = |v: &Vec<(Ver, u32, Shape)>| -> Vec<(Ver, u32, Shape, usize)> {
+        v.iter().flat_map(|(ver, b, sh)| (0..if sh.vin > 0 { 2 } else { 1 }).map(move |cv| (*ver, *b, sh.clone(), cv))).collect()
+    };
+    let (eq_only, bases) = (with_coins(&eq_only), with_coins(&bases));
+    run.section("bases_with_coin_assignments", json!({"matrix": bases.len(), "equality_only": eq_only.len()}));
+    let coin_name = |cv: usize, vin: usize| if vin == 0 { "" } else if cv == 0 { ";coins=p2sh,p2pkh.." } else { ";coins=p2pkh,p2sh.." };
+    eq_only.par_iter().for_each(|(ver, branch, sh, cv)| {
         let spec = make_spec(*ver, *branch, sh);
         let enc = ref_write(&spec).buf;
-        let coins = coins_for(spec.vin.len());
-        let id = format!("{}@{}/{}", ver.name(), branch_name(*branch), sh.id());
+        let coins = coins_for(spec.vin.len(), *cv);
+        let id = format!("{}@{}/{}{}", ver.name(), branch_name(*branch), sh.id(), coin_name(*cv, sh.vin));
         run.eval(format!("eq:{id}").as_bytes());
         match digests(&enc, *branch, &coins) {
             Ok(d) => run.outcome(&format!("equal:{}digests", if d.map.len() > 1 { "n-" } else { "1-" })),
@@ -585,15 +631,15 @@ pub fn run(args: &Args) -> i32 {
         }
     });
 
-    bases.par_iter().for_each(|(ver, branch, sh)| {
+    bases.par_iter().for_each(|(ver, branch, sh, cv)| {
         if run.elapsed() > cap {
             skipped.fetch_add(1, std::sync::atomic::Ordering::Relaxed);
             return;
         }
         let spec = make_spec(*ver, *branch, sh);
         let enc = ref_write(&spec).buf;
-        let coins = coins_for(spec.vin.len());
-        let id = format!("{}@{}/{}", ver.name(), branch_name(*branch), sh.id());
+        let coins = coins_for(spec.vin.len(), *cv);
+        let id = format!("{}@{}/{}{}", ver.name(), branch_name(*branch), sh.id(), coin_name(*cv, sh.vin));
         run.eval(format!("eq:{id}").as_bytes());
         let d0 = match digests_both(&enc, *branch, &coins) {
             Ok((d, bad)) => {
@@ -653,6 +699,8 @@ pub fn run(args: &Args) -> i32 {
     run.section("max_field_positions_per_transaction", json!(max_fields.load(std::sync::atomic::Ordering::Relaxed)));
     run.sample(json!({"base": "v5@Nu5/in1,out1,sp1,so1,or1,ir0", "mutation": "OAnchor(0)pool", "expected": "txid and every signature hash change, auth commitment does not"}));
     run.sample(json!({"base": "v6@Nu6_3/in1,out1,sp1,so1,or1,ir1", "mutation": "OAnchor(1)pool", "expected": "only the auth commitment changes"}));
+    run.sample(json!({"base": "v5@Nu5/in1,..;coins=p2sh", "mutation": "CoinScriptCode(0)flip0", "expected": "no digest changes (ZIP 244 never hashes the scriptCode); CoinScriptPubKey(0) changes every signature hash"}));
+    run.sample(json!({"base": "v4@Canopy/in1,..;coins=p2sh", "mutation": "CoinScriptCode(0)flip0", "expected": "every signature hash of input 0 changes (ZIP 243 field 13b); CoinScriptPubKey(0) changes nothing"}));
     run.sample(json!({"base": "v5@Nu5/in2,out1,..", "mutation": "CoinValue(1)+1", "expected": "signature hashes change except ANYONECANPAY ones of input 0; txid, auth unchanged"}));
     run.sample(json!({"base": "v4@Canopy/in2,out2,..", "mutation": "InSeq(1)^1", "expected": "txid; sighash ALL of every input; every sighash of input 1; not NONE/SINGLE/ANYONECANPAY of input 0"}));
     run.require(run.outcomes_distinct() >= 10 || run.failure_count() > 0, "fewer than 10 distinct outcome classes");
